@@ -59,10 +59,11 @@ CHECKS = {
     ),
     "C05": dict(
         category="model_checking",
-        text=("Kernel-level bounded model checking (Kani/CBMC) of the real merge-expression interpreter ResolvedMergeFn::run, every arm: "
+        text=("Kernel-level bounded model checking (Kani/CBMC) of the real merge-expression interpreter ResolvedMergeFn::run, arm by arm: "
               "old / new / constants; :no-merge raises the panic function exactly when the two values differ and never silently keeps "
               "either; primitive merges are applied to the operands in the written order, nested arguments are evaluated first, a failing "
-              "primitive panics; function-valued merges look the value up. All operand values and all results of nested calls are symbolic."),
+              "primitive panics. All operand values and all results of nested calls are symbolic. (The function-valued arm is not decided: "
+              "its harness did not finish.)"),
         design_ref="DESIGN.md §2 C05",
         note=("Kernel level only: that the merge is APPLIED on every collision (table collision paths, rebuild collisions, parallel insert) "
               "and the fold's order independence are outside; external calls and lookups are stubbed by recorders."),
